@@ -301,13 +301,12 @@ func (r *Request) SetFile(paramName, filePath string) *Request {
 		ParamName: paramName,
 		FileName:  filepath.Base(filePath),
 		GetFileContent: func() (io.ReadCloser, error) {
-			if r.RetryAttempt > 0 {
-				file, err = os.Open(filePath)
-				if err != nil {
-					return nil, err
-				}
+			if file == nil { // the handle opened above was handed out (and closed) before: retry attempt, digest re-send
+				return os.Open(filePath)
 			}
-			return file, nil
+			f := file
+			file = nil
+			return f, nil
 		},
 		FileSize: fileInfo.Size(),
 	})
